@@ -34,7 +34,7 @@ SEPS = ["none", "comment", "blank"]
 
 def bounds(tier):
     return {"element_sets": len(ELEMSETS), "shell_patterns": len(SHELLPATS), "K": KS, "columns": NCOLS,
-            "number_styles": len(STYLES), "preambles": W.PREAMBLES, "separators": SEPS, "trailing_end": 2, "formats": 2,
+            "number_styles": len(STYLES), "preambles": W.PREAMBLES, "separators": SEPS, "trailing_end": 2, "formats": 2, "nwchem_interior_lines": ["comment", "blank"],
             "files_per_model": len(STYLES) * len(W.PREAMBLES) * len(SEPS) * 2 * 2,
             "models": "all %d" % (len(ELEMSETS) * len(SHELLPATS) * 9) if tier != "quick" else "Latin-square third"}
 
@@ -145,6 +145,11 @@ def evaluate(cfg):
                                     model, "nwchem-pre-%s" % pre)
                         check_parse(o, "parse_gbs " + lay, parsers.parse_gbs, W.write_gbs(basis, pre, sep, end),
                                     model, "gbs-pre-%s" % pre)
+            for interior in ("comment", "blank"):
+                for pre in ("header", "none"):
+                    check_parse(o, "parse_nwchem %s/%s pre=%s interior %s lines" % (es, cs, pre, interior),
+                                parsers.parse_nwchem, W.write_nwchem(basis, pre, "comment", True, interior=interior),
+                                model, "nwchem-interior-%s" % interior)
         return o
     if cfg["kind"] == "filehistory":
         return filehistory(o, cfg)
@@ -240,8 +245,10 @@ def builder(o, cfg):
     coords = np.array([hvec("c18-atom%d" % i, 3, -3, 3) for i in range(len(atoms))])
     for src, bd in dicts.items():
         nsh = sum(len(bd[a]) for a in atoms)
-        pattern = ["spherical" if i % 3 else "cartesian" for i in range(nsh)]
-        short = ["p" if i % 3 else "c" for i in range(nsh)]
+        # aperiodic pattern (parity of the digits of pi) so that no shifted slice of it coincides with itself
+        digits = "3141592653589793238462643383279502884197169399375105820974944592"
+        pattern = ["spherical" if int(digits[i % len(digits)]) % 2 else "cartesian" for i in range(nsh)]
+        short = [t[0] if t == "cartesian" else "p" for t in pattern]
         shared = {"list": list(pattern), "tuple": tuple(pattern), "shortlist": list(short)}
         variants = [("str cartesian", "cartesian"), ("str c", "c"), ("str spherical", "spherical"), ("str p", "p"),
                     ("list", shared["list"]), ("tuple", shared["tuple"]), ("shortlist", shared["shortlist"])]
